@@ -519,7 +519,18 @@ func runSelect(c *Ctx) {
 		default:
 			list = sc.proofs
 		}
-		selectToSendCase(c, sc, list, replay, add)
+		// amount for this call: relative to the value of the list it is called on (so that refusals are mostly
+		// the interesting near-the-limit ones), sometimes the case's amount
+		amtA := sc.amount
+		if r.Chance(75) {
+			lb, _ := sumNoWrap(amountsOf(list))
+			mm := lb + 3
+			if mm < 3 {
+				mm = ^uint64(0)
+			}
+			amtA = 1 + r.U64()%mm
+		}
+		selectToSendCase(c, sc, list, amtA, replay, add)
 
 		// ---- B. selectProofsForAmount through a real Wallet
 		selectForAmountCase(c, sc, replay, add)
@@ -629,12 +640,12 @@ func blankInput(r *Rng) uint64 {
 	}
 }
 
-func selectToSendCase(c *Ctx, sc *selCase, list []selProof, replay map[string]any, add func(Sx, string, string, bool)) {
-	out := callSelectToSend(sc, list, sc.amount, sc.inc)
+func selectToSendCase(c *Ctx, sc *selCase, list []selProof, amount uint64, replay map[string]any, add func(Sx, string, string, bool)) {
+	out := callSelectToSend(sc, list, amount, sc.inc)
 	class := sc.tieClass(list, sc.inc)
 	key := fmt.Sprintf("toSend/tie%d/%s/inc=%v/ppk%s/n%d", class, out.kind, sc.inc, feeBucket(sc.activePpk), bucketN(len(list)))
 	args := func(srt Sx, view string) Sx {
-		return L(A("select.send"), srt, A(view), sc.mintSx(), proofsSx(list), N(sc.amount), B(sc.inc))
+		return L(A("select.send"), srt, A(view), sc.mintSx(), proofsSx(list), N(amount), B(sc.inc))
 	}
 	view := map[int]string{1: "ak", 2: "a"}[class]
 	if out.kind == "panic" || out.kind == "err-other" {
@@ -647,7 +658,11 @@ func selectToSendCase(c *Ctx, sc *selCase, list []selProof, replay map[string]an
 	if out.ok {
 		add(args(oracleSx(out.ps), "uid"), out.render("uid"), key+"/oracle", len(out.ps) > 1)
 	}
-	selMonitors(c, sc, "selectProofsToSend", list, sc.amount, sc.inc, out, replay, "")
+	rp := map[string]any{"amountToSend": amount}
+	for k, v := range replay {
+		rp[k] = v
+	}
+	selMonitors(c, sc, "selectProofsToSend", list, amount, sc.inc, out, rp, "")
 }
 
 func selectForAmountCase(c *Ctx, sc *selCase, replay map[string]any, add func(Sx, string, string, bool)) {
@@ -669,7 +684,20 @@ func selectForAmountCase(c *Ctx, sc *selCase, replay map[string]any, add func(Sx
 		c.Hist("unchecked-blind", "forAmount/tie3/"+out.kind)
 	}
 	if out.ok {
-		add(args(oracleSx(out.ps), "set"), out.render("set"), key+"/oracle", len(out.ps) > 1)
+		// The oracle is the order of the proofs Go returned. When Go's inner selection over the inactive proofs
+		// failed (its error is dropped, no inactive proof is returned) the tie-breaking of that failed call is
+		// not observable; in tie class 3 it decides whether the inner call fails at all, so no replay then.
+		hasInactive := false
+		for _, p := range out.ps {
+			if p.ks != 1 {
+				hasInactive = true
+			}
+		}
+		if class < 3 || hasInactive || len(inactive) == 0 {
+			add(args(oracleSx(out.ps), "set"), out.render("set"), key+"/oracle", len(out.ps) > 1)
+		} else {
+			c.Hist("unchecked-oracle", "forAmount/tie3/inner-selection-dropped")
+		}
 	}
 	// shape of a refusal, from inputs and outcome only
 	shape := ""
